@@ -105,21 +105,21 @@ func c02Gate(o *hx.Out, r *rand.Rand, dname string, d *dialect.Dialect, nmsg int
 			}
 			add := func(class string, b []byte) {
 				cs := one(b)
-				o.Add(class, hx.ReadAll(cs, drw, nil, nil), "fread", dname, "-", hx.ChunksText(cs))
+				o.AddLater(class, hx.ReadAllLater(cs, drw, nil, nil), "fread", dname, "-", hx.ChunksText(cs))
 			}
 			add("gate-valid", bs)
 			// the gate must not depend on how the transport splits the frame: every two-piece split
 			// of the valid frame, and a random segmentation of every fourth damaged variant
 			for cut := 1; cut < len(bs); cut++ {
 				cs := []hx.Chunk{{Data: bs[:cut]}, {Data: bs[cut:]}}
-				o.Add("gate-valid-split", hx.ReadAll(cs, drw, nil, nil), "fread", dname, "-", hx.ChunksText(cs))
+				o.AddLater("gate-valid-split", hx.ReadAllLater(cs, drw, nil, nil), "fread", dname, "-", hx.ChunksText(cs))
 			}
 			nadd := 0
 			addv := func(class string, b []byte) {
 				nadd++
 				if nadd%4 == 0 {
 					cs := splitRandom(r, b)
-					o.Add(class+"-split", hx.ReadAll(cs, drw, nil, nil), "fread", dname, "-", hx.ChunksText(cs))
+					o.AddLater(class+"-split", hx.ReadAllLater(cs, drw, nil, nil), "fread", dname, "-", hx.ChunksText(cs))
 					return
 				}
 				add(class, b)
